@@ -468,4 +468,161 @@ theorem wfDump_of_at {v w : Val} {q : List Nat} {ns : List Str} (h : At v q ns w
     simp only [wfDump] at hv
     exact ih (wfDumpItems_get hv hk)
 
+/-! ## With one field list per node type, `sameExpr` is `sameUpToCtx` -/
+
+theorem mem_names_eraseCtxFields (ty : Str) : ∀ (fs : List (Str × Val)) (x : Str),
+    x ∈ (eraseCtxFields ty fs).map Prod.fst → x ∈ fs.map Prod.fst
+  | [], _, h => by simp [eraseCtxFields] at h
+  | (n, v) :: rest, x, h => by
+    by_cases hd : droppedField ty n v = true
+    · simp only [eraseCtxFields, hd, if_true] at h
+      exact List.mem_cons_of_mem _ (mem_names_eraseCtxFields ty rest x h)
+    · simp only [eraseCtxFields, hd, Bool.false_eq_true, if_false, List.map_cons, List.mem_cons] at h
+      rcases h with h | h
+      · simp [h]
+      · exact List.mem_cons_of_mem _ (mem_names_eraseCtxFields ty rest x h)
+
+/-- A kept field cannot face the erased rest of a list that does not contain its name. -/
+theorem sameShapeFields_head_name {E1 E2 : List (Str × Val)} {n : Str} {w : Val}
+    (h : sameShapeFields E1 ((n, w) :: E2) = true) : n ∈ E1.map Prod.fst := by
+  cases E1 with
+  | nil => simp [sameShapeFields] at h
+  | cons f E1' =>
+    obtain ⟨m, u⟩ := f
+    simp only [sameShapeFields, Bool.and_eq_true, beq_iff_eq] at h
+    simp [h.1.1]
+
+theorem sameShapeFields_head_name' {E1 E2 : List (Str × Val)} {n : Str} {w : Val}
+    (h : sameShapeFields ((n, w) :: E2) E1 = true) : n ∈ E1.map Prod.fst := by
+  cases E1 with
+  | nil => simp [sameShapeFields] at h
+  | cons f E1' =>
+    obtain ⟨m, u⟩ := f
+    simp only [sameShapeFields, Bool.and_eq_true, beq_iff_eq] at h
+    simp [h.1.1]
+
+theorem sameShape_none_scalars {v1 v2 : Val} (h1 : isNoneScalar v1 = true) (h2 : isNoneScalar v2 = true) :
+    sameShape (stripCtx v1) (stripCtx v2) = true := by
+  cases v1 <;> cases v2 <;> simp_all [isNoneScalar, stripCtx, sameShape]
+
+mutual
+theorem stripShape_of_eraseShape (sch : List (Str × List Str)) : ∀ (a b : Val), conforms sch a = true →
+    conforms sch b = true → sameShape (eraseCtx a) (eraseCtx b) = true →
+    sameShape (stripCtx a) (stripCtx b) = true
+  | .node t1 _ _ _ f1, .node t2 _ _ _ f2, c1, c2, h => by
+    simp only [eraseCtx, sameShape, Bool.and_eq_true, beq_iff_eq] at h
+    obtain ⟨rfl, hf⟩ := h
+    simp only [conforms, Bool.and_eq_true, beq_iff_eq] at c1 c2
+    simp only [stripCtx, sameShape, beq_self_eq_true, Bool.true_and]
+    exact stripShapeFields_of_eraseShape sch t1 f1 f2 (c1.1.1.trans c2.1.1.symm) c1.1.2 c1.2 c2.2 hf
+  | .list _ x1, .list _ x2, c1, c2, h => by
+    simp only [eraseCtx, sameShape] at h
+    simp only [conforms] at c1 c2
+    simp only [stripCtx, sameShape]
+    exact stripShapeItems_of_eraseShape sch x1 x2 c1 c2 h
+  | .scalar _ _, .scalar _ _, _, _, h => by simpa [eraseCtx, stripCtx] using h
+  | .node _ _ _ _ _, .list _ _, _, _, h => by simp [eraseCtx, sameShape] at h
+  | .node _ _ _ _ _, .scalar _ _, _, _, h => by simp [eraseCtx, sameShape] at h
+  | .list _ _, .node _ _ _ _ _, _, _, h => by simp [eraseCtx, sameShape] at h
+  | .list _ _, .scalar _ _, _, _, h => by simp [eraseCtx, sameShape] at h
+  | .scalar _ _, .node _ _ _ _ _, _, _, h => by simp [eraseCtx, sameShape] at h
+  | .scalar _ _, .list _ _, _, _, h => by simp [eraseCtx, sameShape] at h
+theorem stripShapeFields_of_eraseShape (sch : List (Str × List Str)) (ty : Str) :
+    ∀ (f1 f2 : List (Str × Val)), f1.map Prod.fst = f2.map Prod.fst → nodupB (f1.map Prod.fst) = true →
+    conformsFields sch f1 = true → conformsFields sch f2 = true →
+    sameShapeFields (eraseCtxFields ty f1) (eraseCtxFields ty f2) = true →
+    sameShapeFields (stripCtxFields f1) (stripCtxFields f2) = true
+  | [], [], _, _, _, _, _ => rfl
+  | [], _ :: _, hn, _, _, _, _ => by simp at hn
+  | _ :: _, [], hn, _, _, _, _ => by simp at hn
+  | (n1, v1) :: r1, (n2, v2) :: r2, hn, hnd, c1, c2, h => by
+    simp only [List.map_cons, List.cons.injEq] at hn
+    obtain ⟨rfl, hn⟩ := hn
+    simp only [List.map_cons, nodupB, Bool.and_eq_true, Bool.not_eq_true', List.contains_eq_mem,
+      decide_eq_false_iff_not] at hnd
+    simp only [conformsFields, Bool.and_eq_true] at c1 c2
+    by_cases hctx : (n1 == cs!"ctx") = true
+    · have d1 : droppedField ty n1 v1 = true := by simp [droppedField, hctx]
+      have d2 : droppedField ty n1 v2 = true := by simp [droppedField, hctx]
+      simp only [eraseCtxFields, d1, d2, if_true] at h
+      simp only [stripCtxFields, hctx, if_true]
+      exact stripShapeFields_of_eraseShape sch ty r1 r2 hn hnd.2 c1.2 c2.2 h
+    · simp only [stripCtxFields, hctx, Bool.false_eq_true, if_false, sameShapeFields, beq_self_eq_true,
+        Bool.true_and, Bool.and_eq_true]
+      by_cases d1 : droppedField ty n1 v1 = true <;> by_cases d2 : droppedField ty n1 v2 = true
+      · simp only [eraseCtxFields, d1, d2, if_true] at h
+        have e1 : isNoneScalar v1 = true := by
+          simp only [droppedField, hctx, Bool.false_or, Bool.and_eq_true] at d1; exact d1.1
+        have e2 : isNoneScalar v2 = true := by
+          simp only [droppedField, hctx, Bool.false_or, Bool.and_eq_true] at d2; exact d2.1
+        exact ⟨sameShape_none_scalars e1 e2, stripShapeFields_of_eraseShape sch ty r1 r2 hn hnd.2 c1.2 c2.2 h⟩
+      · exfalso
+        simp only [eraseCtxFields, d1, d2, if_true, Bool.false_eq_true, if_false] at h
+        exact hnd.1 (mem_names_eraseCtxFields ty r1 n1 (sameShapeFields_head_name h))
+      · exfalso
+        simp only [eraseCtxFields, d1, d2, if_true, Bool.false_eq_true, if_false] at h
+        exact hnd.1 (hn ▸ mem_names_eraseCtxFields ty r2 n1 (sameShapeFields_head_name' h))
+      · simp only [eraseCtxFields, d1, d2, Bool.false_eq_true, if_false, sameShapeFields, beq_self_eq_true,
+          Bool.true_and, Bool.and_eq_true] at h
+        exact ⟨stripShape_of_eraseShape sch v1 v2 c1.1 c2.1 h.1,
+          stripShapeFields_of_eraseShape sch ty r1 r2 hn hnd.2 c1.2 c2.2 h.2⟩
+theorem stripShapeItems_of_eraseShape (sch : List (Str × List Str)) : ∀ (x1 x2 : List Val),
+    conformsItems sch x1 = true → conformsItems sch x2 = true →
+    sameShapeItems (eraseCtxItems x1) (eraseCtxItems x2) = true →
+    sameShapeItems (stripCtxItems x1) (stripCtxItems x2) = true
+  | [], [], _, _, _ => rfl
+  | [], _ :: _, _, _, h => by simp [eraseCtxItems, sameShapeItems] at h
+  | _ :: _, [], _, _, h => by simp [eraseCtxItems, sameShapeItems] at h
+  | v1 :: r1, v2 :: r2, c1, c2, h => by
+    simp only [conformsItems, Bool.and_eq_true] at c1 c2
+    simp only [eraseCtxItems, sameShapeItems, Bool.and_eq_true] at h
+    simp only [stripCtxItems, sameShapeItems, Bool.and_eq_true]
+    exact ⟨stripShape_of_eraseShape sch v1 v2 c1.1 c2.1 h.1, stripShapeItems_of_eraseShape sch r1 r2 c1.2 c2.2 h.2⟩
+end
+
+/-- On trees with one field list per node type, the relation of the dump text is `sameUpToCtx`. -/
+theorem sameUpToCtx_of_sameExpr {sch : List (Str × List Str)} {a b : Val} (ca : conforms sch a = true)
+    (cb : conforms sch b = true) (h : sameExpr a b = true) : sameUpToCtx a b = true :=
+  stripShape_of_eraseShape sch a b ca cb h
+
+theorem conformsFields_get {sch : List (Str × List Str)} {fs : List (Str × Val)} : ∀ {k : Nat} {n : Str} {c : Val},
+    conformsFields sch fs = true → fs[k]? = some (n, c) → conforms sch c = true := by
+  induction fs with
+  | nil => intro k n c _ h; simp at h
+  | cons f rest ih =>
+    intro k n c hw h
+    obtain ⟨n0, v0⟩ := f
+    simp only [conformsFields, Bool.and_eq_true] at hw
+    cases k with
+    | zero =>
+      simp only [List.getElem?_cons_zero, Option.some.injEq, Prod.mk.injEq] at h
+      rw [← h.2]; exact hw.1
+    | succ k => exact ih hw.2 (by simpa using h)
+
+theorem conformsItems_get {sch : List (Str × List Str)} {xs : List Val} : ∀ {k : Nat} {c : Val},
+    conformsItems sch xs = true → xs[k]? = some c → conforms sch c = true := by
+  induction xs with
+  | nil => intro k c _ h; simp at h
+  | cons v rest ih =>
+    intro k c hw h
+    simp only [conformsItems, Bool.and_eq_true] at hw
+    cases k with
+    | zero =>
+      simp only [List.getElem?_cons_zero, Option.some.injEq] at h
+      rw [← h]; exact hw.1
+    | succ k => exact ih hw.2 (by simpa using h)
+
+theorem conforms_of_at {sch : List (Str × List Str)} {v w : Val} {q : List Nat} {ns : List Str}
+    (h : At v q ns w) : conforms sch v = true → conforms sch w = true := by
+  induction h with
+  | here v => exact id
+  | field hk _ ih =>
+    intro hv
+    simp only [conforms, Bool.and_eq_true] at hv
+    exact ih (conformsFields_get hv.2 hk)
+  | item hk _ ih =>
+    intro hv
+    simp only [conforms] at hv
+    exact ih (conformsItems_get hv hk)
+
 end Paroxy.Flat
